@@ -251,10 +251,40 @@ def special_c18(res, tier, seed, workdir, stats):
     res.cov["allocating_ops_observed"] = total_allocs
 
 
+# ---------------------------------------------------------------- C08
+def special_c08(res, tier, seed, workdir, stats):
+    """static release claim: the #[no_panic] wrappers around every public operation must link"""
+    cdir = os.path.join(hh.ROOT, "harness", "nopanic")
+    lock = os.path.join(cdir, "Cargo.lock")
+    if not os.path.exists(lock):
+        shutil.copy(os.path.join(hh.REPO, "Cargo.lock"), lock)
+    hh.ensure_repo_link()
+    rc, out, err = hh.sh(["cargo", "build", "--offline", "--release"], cwd=cdir, env={"CARGO_TARGET_DIR": os.path.join(hh.BUILD, "t-nopanic")}, timeout=3600)
+    txt = out + err
+    res.cov["nopanic_wrappers"] = 4 * 13 + 10
+    if rc != 0:
+        fns = sorted(set(re.findall(r"detected panic in function `([^`]+)`", txt)))
+        if fns:
+            res.replay(dict(kind="impl-violates-property", config="release lto=fat cgu=1",
+                            message=f"release build contains a panic path: #[no_panic] link failure in wrapper(s) {fns}", wrappers=fns, linker=txt[-1500:]))
+            res.n_oracle_fail += 1
+        else:
+            res.corr_pending.append(dict(kind="correspondence-broken", stream="nopanic crate does not build", detail=txt[-1500:]))
+        res.cov["nopanic_link"] = "FAILED"
+    else:
+        res.cov["nopanic_link"] = "ok"
+        rc2, out2, err2 = hh.sh([os.path.join(hh.BUILD, "t-nopanic", "release", "nopanic")], input="some input bytes for the linked wrappers, longer than one packet......", timeout=60)
+        res.cov["nopanic_run"] = "ok" if rc2 == 0 else f"exit {rc2}"
+        if rc2 != 0:
+            res.replay(dict(kind="impl-violates-property", message="the no_panic binary aborted at run time", output=(out2 + err2)[-800:]))
+            res.n_oracle_fail += 1
+    res.evals += 1
+
+
 def check_mod():
     import check
     return check
 
 
 T.PRE.update({"C16": pre_facts, "C17": pre_facts, "C18": pre_facts, "C15": pre_facts})
-T.SPECIAL.update({"C16": special_c16, "C17": special_c17, "C18": special_c18})
+T.SPECIAL.update({"C08": special_c08, "C16": special_c16, "C17": special_c17, "C18": special_c18})
